@@ -4,6 +4,7 @@ From Coq Require Import NArith List Bool.
 From Mpc Require Import Base.Label Base.Codec Base.CodecProof Circuit.Circuit Circuit.Garble
      Proto.Session Proto.SessionProof Proto.Conn Proto.ConnProof Proto.SessionConn Proto.SessionOT.
 Import ListNotations.
+From Mpc Require Gen.State Base.StateExpected Base.StateCheck Base.StatePkgs.
 
 (* For every key-indexed family of block functions, every random stream,
    every key, every scratch content, every well-formed two-party circuit and
@@ -211,3 +212,16 @@ Theorem C02_missing_flush_refuted :
               exists s, run_live g e_bad en (alt n) = Unfinished s.
 Proof. exact missing_flush_refuted. Qed.
 Print Assumptions C02_missing_flush_refuted.
+
+(* STATE INVENTORY (finite obligation on the model regenerated from the source, checked by
+   computation).  The struct fields and package-level variables of the Go packages this
+   property is anchored in — circuit, ot, p2p — as emitted from /repo's current
+   source by harness/gen_state.go (Gen/State.v) are exactly those the models above were written
+   against (Base/StateExpected.v).  A new field or variable (a cache, a memo, a pool, a counter,
+   a changed field type) is state the models do not have: this obligation then breaks and the
+   property is no longer shown to hold until the change has been reviewed against the model. *)
+Theorem C02_state_inventory :
+  Mpc.Base.StateCheck.state_unchanged Mpc.Gen.State.state_inventory Mpc.Base.StateExpected.expected_state
+    Mpc.Base.StatePkgs.pkgs_C02 = true.
+Proof. vm_compute. reflexivity. Qed.
+Print Assumptions C02_state_inventory.
